@@ -18,7 +18,7 @@ META = {
     "category": "proof",
     "design_ref": "DESIGN.md §5 C22",
     "lean_modules": ["XdslProofs.C22", "XdslProofs.C22Frame", "XdslProofs.C22FrameWalk", "XdslProofs.C22Float", "XdslProofs.C22Kernels",
-                     "XdslProofs.C22Validate"],
+                     "XdslProofs.C22Validate", "XdslProofs.C22Labels"],
     "extra_targets": ["XdslGen", "driver_gen"],
     "text": (
         "Lean (BitVec 32, x0 hard-wired, Mathlib-free): an RV32IM(+rv32-dialect bit immediates) machine with a straight-line "
@@ -83,7 +83,18 @@ META = {
         "f64/f32 arith programs with per-op fast-math flags and compares every stage with the set of results the source's flags admit "
         "(own exact evaluator, strict reading cross-checked with the Lean reference semantics). fuseMultiplyAddD_licensed / _sound: for every "
         "float arithmetic the rule fires only with contract on sum and product, single use, stable multiplicands, and then writes a "
-        "licensed value; fuse_reassoc_counterexample, fuse_stale_counterexample (the repaired post-allocation defect); Lean rule = real pattern per op."
+        "licensed value; fuse_reassoc_counterexample, fuse_stale_counterexample (the repaired post-allocation defect); Lean rule = real pattern per op. "
+        "ONE ASSEMBLER UNIT (C22Labels, XdslModel/RiscVLabels.lean): a module is emitted as one unit in which function names and the local labels "
+        "of all functions share a namespace. Leg B lowers modules of 2-4 functions (>= 2 with loops: one loop, two in sequence, nested; constant and "
+        "argument-dependent trip counts; now and then a caller) as a whole, loads every stage output as a whole and calls EVERY function as an entry "
+        "point against the reference semantics of that function; labels are resolved the way an assembler does: a name defined twice (in the IR: two "
+        "riscv.label / function symbols of one module; in the text: two definitions) or a branch to an undefined label makes the unit unassemblable "
+        "and is a failing input for every entry point, blamed on the first stage whose output has it. assemble_dup_iff / assemble_ok_sound / "
+        "assemble_ok_policy_free: the model assembler rejects exactly the units with a duplicate definition, resolves every target of an accepted unit "
+        "to a position holding that label, and first-wins = last-wins there (dup_resolution_differs: not so with a duplicate); allocShared_nodup: the "
+        "numbering of both loop lowerings (ONE counter per module) gives pairwise distinct labels for every number of functions and loops; "
+        "allocPerFunction_dup(_general): a counter restarted per function defines a label twice as soon as two functions have a loop. The labels the "
+        "real lowerings define per function = Lean allocShared, the oracle's symbol table = Lean assemble (incl. rejected one-edit mutants of emitted units)."
     ),
     "technique": "Lean 4 proofs of rewrite rules over an RV32 BitVec machine + theorems over fold kernels translated from the Python source + a proved symbolic-execution translation validator run on every emitted loop-free function + differential snippets + stage-wise execution on an independent machine model",
     "level_note": (
@@ -100,6 +111,9 @@ META = {
         "licence nothing here (no pattern uses them) and `contract` licences exactly product-into-sum/difference fusion; float programs are "
         "straight-line addf/subf/mulf/divf (arith.negf on f64 lowers to the single-precision fsgnjn.s - no double-precision op exists in "
         "the dialect -, minimumf/maximumf lower to fmin/fmax with different NaN behaviour, cmpf/conversions: outside the generated family). "
+        "Calls: a function that contains a call does not get through riscv-allocate-registers (the call excludes all a-/t-registers: "
+        "OutOfRegisters = does not compile), so modules with a caller are executed on the unallocated form only (S1/E1, calls followed by "
+        "the IR executor); jal to a name the unit does not define is left to the linker. "
         "Frame: restoring every callee-saved register is proved for straight-line bodies; bodies with loops and the placement of the "
         "pass in the pipeline are validated by execution. Outside the machine model (stated): snitch ScfgwOpUsingImmediate, "
         "RV64 execution (only py_operation kernels of rv64 are checked). Pipeline exceptions count as 'does not "
@@ -127,13 +141,17 @@ META = {
         "FuseMultiplyAddD snippets (10 shapes) + 14 per other float pattern, 8 vectors (30% special values, 60% full-mantissa, the addend "
         "cancelling a product with probability 1/2); leg B 37 fixed + 40 random float programs x 6 inputs, half of the random ones with values "
         "pinned to fs-registers; 26 fixed loop programs repeated with loop-body temporaries pinned to s-registers (p = 0.7); every loop "
-        "program also through P (and Q for pinned ones / half of the rest), every float program and 15% of the others through E."
+        "program also through P (and Q for pinned ones / half of the rest), every float program and 15% of the others through E. "
+        "Multi-function modules: 5 fixed (3 of them again with pinned s-registers) + 12 (thorough 1500) generated, 3 random + 2 fixed input vectors per "
+        "function, every function an entry point; distinct = (module, entry, input). Labels: every emitted unit with a local label vs Lean assemble, "
+        "2 rejected mutants per multi-function unit, every loop lowering (cf conversion, labels pass before and after prologue insertion) vs Lean allocShared."
     ),
     "trusted_base": [
         "independent Python RV32 machine harness/props/c22_rv.py (integer part cross-checked against the Lean machine every run; the F/D part - "
         "IEEE arithmetic on exact rationals - against the Lean reference semantics' native floats through the strict reading of every float program)",
         "hand-written Lean model XdslModel/RiscVFrameFloat.lean (register collection + frame layout tied to the real pass per function, FuseMultiplyAddD tied to the real pattern per op)",
         "hand-written Lean models XdslModel/RiscV.lean, RiscVRules.lean (rules tied to the real patterns by per-op correspondence)",
+        "hand-written Lean model XdslModel/RiscVLabels.lean (label numbering tied to both real loop lowerings per module; assembler symbol table tied to the oracle's)",
         "Lean reference semantics XdslModel/Sem.lean for the source programs (C15)",
         "assembler-text parser for the emitted subset; an instruction it cannot read counts as not assembling",
         "translator harness/translate/py2lean.py + generate.py (regenerated and cross-checked against the real kernels every run)",
@@ -151,6 +169,8 @@ SIG_RAISE = "raises on verified IR"
 SIG_ENC = "emits an instruction that cannot be encoded"
 SIG_UNALLOC = "introduces an unallocated register into allocated code"
 SIG_DIFF = "changes the result"
+SIG_UNIT = "emitted assembly defines a label twice"
+SIG_UNDEF = "emitted assembly branches to an undefined label"
 
 
 # ================================================================================================
@@ -567,24 +587,43 @@ def run_snippets(ctx: core.Ctx) -> None:
 # leg B
 # ================================================================================================
 
+def entry_view(p: dict[str, Any], name: str) -> dict[str, Any]:
+    """the program as seen from one of its entry points: `arg_types` / `ret_types` of that function"""
+    f = next((f for f in p.get("funcs", []) if f["name"] == name), None)
+    if f is None:
+        return dict(p, entry=name)
+    return dict(p, entry=name, arg_types=f["arg_types"], ret_types=f["ret_types"])
+
+
 def compile_and_run(p: dict[str, Any], vecs: list[list[int]], regsets: list[dict[str, int]], pin_seed: int | None,
-                    ctx: core.Ctx | None, paths: tuple[str, ...] = ("C", "P", "Q")) -> dict[str, Any]:
+                    ctx: core.Ctx | None, paths: tuple[str, ...] = ("C", "P", "Q"), entries: list[str] | None = None) -> dict[str, Any]:
     """all stages of the main path and of the side paths `paths` (pass-order family, see c22_pipe);
-    observations per stage per input"""
+    observations per stage per input.  `entries`: the function each input is for (default `main`); the module is
+    compiled once, as one unit, and every stage output is loaded as a whole before an entry point is called"""
     out: dict[str, Any] = {"stages": [], "nocompile": None, "nocompile_cf": None, "nocompile_side": {}, "unsafe_loops": False,
                            "interference": [], "asm": None, "prog": None, "frames": []}
     m = proggen.parse_module(p["text"])
-    out["unsafe_loops"] = pp.unsafe_source_loops(m)  # on the source, before any pass under test
-    rets = pp.abi_regs(p["ret_types"])
+    entries = entries or [p.get("entry", "main")] * len(vecs)
+    # on the source, before any pass under test: per entry point, over the functions it can reach
+    out["reach"] = pp.call_closure(m)
+    out["unsafe_by_entry"] = {e: pp.unsafe_source_loops(m, out["reach"].get(e, {e})) for e in set(entries)}
+    out["unsafe_loops"] = any(out["unsafe_by_entry"].values())
+    rets = [pp.abi_regs(entry_view(p, e)["ret_types"]) for e in entries]
     has_loop = "scf.for" in p["text"]
     snaps: dict[str, Any] = {}
 
     def run_stage(m: Any, sname: str, passes: list[str]) -> tuple[str, str, str] | None:
         if sname == "S2-allocated" and pin_seed is not None:
             out["pinned"] = pp.pin_s_registers(m, random.Random(pin_seed), p.get("pin_p", 0.4))
+        loops = pp.loops_per_function(m) if sname in pp.KINDS_OF_STAGE else []
         err = pp.apply_passes(m, passes, frame_obs=lambda fr: out["frames"].extend((sname,) + x for x in fr))
         if err:
             return err
+        if any(n for _, n in loops):
+            # the names the loop lowering gave the loops of the module (for the Lean model of its numbering)
+            out.setdefault("label_alloc", []).append(
+                (sname, pp.KINDS_OF_STAGE[sname], [n for _, n in loops],
+                 pp.labels_per_function(pp.ir_label_defs(m), [f for f, _ in loops], pp.KINDS_OF_STAGE[sname])))
         if sname == "S2-allocated":
             try:
                 out["interference"] = pp.interference(m)
@@ -597,13 +636,21 @@ def compile_and_run(p: dict[str, Any], vecs: list[list[int]], regsets: list[dict
             if sname == pp.FINAL:
                 out["asm"], out["prog"] = asm, prog
             bad = [(rv.fmt(i), rv.encodable(i)) for i in prog if rv.encodable(i)]
+            unit = rv.unit_errors(prog)   # what makes an assembler reject the unit whatever the input
             if bad:
                 out["stages"].append((sname, [("unencodable", bad)] * len(vecs), asm))
+            elif unit:
+                out["stages"].append((sname, [("unassemblable", unit)] * len(vecs), asm))
             else:
-                out["stages"].append((sname, [pp.run_asm(prog, r, rets) for r in regsets], asm))
+                out["stages"].append((sname, [pp.run_asm(prog, r, rt, e) for r, rt, e in zip(regsets, rets, entries)], asm))
         else:
+            # the labels are operations of the IR: a name defined twice in the module is already the defect
+            dups = rv.duplicates(pp.ir_label_defs(m))
+            if dups:
+                out["stages"].append((sname, [("unassemblable", [f"label {n} is defined twice" for n in dups])] * len(vecs), str(m)))
+                return None
             try:
-                out["stages"].append((sname, [pp.run_ir(m, r, rets) for r in regsets], str(m)))
+                out["stages"].append((sname, [pp.run_ir(m, r, rt, e) for r, rt, e in zip(regsets, rets, entries)], str(m)))
             except pp.IRUnsupported as e:
                 if ctx is not None:
                     ctx.count("legB.ir_executor_unsupported." + str(e)[:40])
@@ -637,6 +684,12 @@ def judge(p: dict[str, Any], regs: dict[str, int], want: Any, stage_obs: list[tu
     for sname, ob, txt in stage_obs:
         if ob[0] == "unencodable":
             return (sname, SIG_ENC, "the emitted assembler contains an instruction that does not assemble", ob[1])
+        if ob[0] == "unassemblable":
+            twice = any("defined twice" in x for x in ob[1])
+            return (sname, SIG_UNIT if twice else SIG_UNDEF,
+                    "the module is emitted as one assembler unit; " + ("it defines a label more than once (an assembler rejects the unit; "
+                    "resolved to either definition, branches of one function land in another)" if twice else
+                    "a branch names a label that the unit does not define"), ob[1])
         if ob[0] != "ok":
             return (sname, "execution traps", f"executing the stage output traps: {ob[1]}", ob[1])
         if sname in ("S2-allocated", "S3-pmov", "S4-canon", "C3-cf", "C4-cfcanon", "P5-frame", "Q3-frame") and len(ob) > 3 and ob[3]:
@@ -666,7 +719,12 @@ def run_pipeline(ctx: core.Ctx) -> None:
     # wherever it runs in the pipeline), and the float programs (fast-math flags decide what may be contracted)
     progs += [dict(q, pin=True, pin_p=0.7) for q in pp.directed_programs() if "scf.for" in q["text"]]
     progs += pp.float_directed()
+    # modules of several functions with loops: ONE assembler unit, every function an entry point (labels are
+    # resolved over the whole unit, the way an assembler does)
+    md = pp.multi_directed()
+    progs += md + [dict(q, pin=True, pin_p=0.7) for q in md[:3]]
     ndirected = len(progs)
+    progs += [g.multi_program() for _ in range(12 if ctx.tier == "quick" else 1500)]
     progs += [pp.nested_program(rng) for _ in range(8 if ctx.tier == "quick" else 1500)]
     progs += [g.program() for _ in range(nprog)]
     progs += [pp.float_program(rng) for _ in range(40 if ctx.tier == "quick" else 4000)]
@@ -678,6 +736,16 @@ def run_pipeline(ctx: core.Ctx) -> None:
     lean_expect: list[tuple[str, Any, str]] = []
     tv_lines: list[str] = []
     tv_items: list[dict[str, Any]] = []
+    lab_lines: list[str] = []
+    lab_expect: list[tuple[str, Any, str]] = []
+
+    def unit_line(prog: list[tuple[str, list[Any]]], case: dict[str, Any]) -> None:
+        """the oracle's symbol table of an emitted unit vs the Lean `assemble`"""
+        line, names = rv.lean_unit(prog)
+        kind, val = rv.assemble(prog)
+        lab_lines.append(line)
+        lab_expect.append(("asm", case, ("ok " + " ".join(map(str, val))).strip() if kind == "ok" else f"{kind} {names[val]}"))
+
     for idx, p in enumerate(progs):
         if ctx.time_left() < 30:
             ctx.count("legB.skipped_for_time")
@@ -691,13 +759,23 @@ def run_pipeline(ctx: core.Ctx) -> None:
         src = tv.src_of(m)  # the validator's view of the source (None: loops, calls, other types)
         ctx.programs += 1
         isfloat = "fspec" in p
+        entries: list[str] | None = None
         if isfloat:
             vecs = pp.float_inputs(rng, p, 6)
+        elif "funcs" in p:
+            vecs, entries = [], []
+            for f in p["funcs"]:
+                fv = g.inputs(f["arg_types"], 3) + ([[2, 3], [-8, 5]] if len(f["arg_types"]) == 2 else [])
+                vecs += fv
+                entries += [f["name"]] * len(fv)
+            ctx.count("legB.multi.modules")
+            ctx.count("legB.multi.functions_with_loops", sum("scf.for" in t for t in p["text"].split("func.func")[1:]))
         else:
             vecs = g.inputs(p["arg_types"], 5)
             if idx < ndirected and len(p["arg_types"]) == 2 and not p.get("pin"):
                 vecs += pp.BOUNDARY_PAIRS
-        regsets = [pp.entry_regs(rng, v, p["arg_types"]) for v in vecs]
+        views = [entry_view(p, e) for e in entries] if entries else [p] * len(vecs)
+        regsets = [pp.entry_regs(rng, v, pv["arg_types"]) for v, pv in zip(vecs, views)]
         if isfloat and idx >= ndirected and rng.random() < 0.5:
             p = dict(p, pin=True, pin_p=0.7)
         pin_seed = rng.randrange(1 << 30) if (p.get("pin") or (idx >= ndirected and rng.random() < 0.4)) else None
@@ -705,7 +783,9 @@ def run_pipeline(ctx: core.Ctx) -> None:
         # callee-saved registers and for half of the others; E for float programs and a sample of the integer ones
         paths = ("C", "P") + (("Q",) if (pin_seed is not None or rng.random() < 0.5) else ()) \
             + (("E",) if (isfloat or rng.random() < 0.15) else ())
-        res = compile_and_run(p, vecs, regsets, pin_seed, ctx, paths)
+        res = compile_and_run(p, vecs, regsets, pin_seed, ctx, paths, entries)
+        if entries and any(sn_ in pp.FINALS for sn_, _, _ in res["stages"]):
+            ctx.count("legB.multi.reached_assembler")
         for pth, nc in res["nocompile_side"].items():
             if pth != "C":
                 ctx.count(f"legB.path_{pth}.does_not_compile." + ".".join(nc[:3]))
@@ -729,6 +809,22 @@ def run_pipeline(ctx: core.Ctx) -> None:
             ctx.count("legB.cf_path.does_not_compile." + ".".join(res["nocompile_cf"][:3]))
         elif any(sn_ == "C5-cfasm" for sn_, _, _ in res["stages"]):
             ctx.count("legB.cf_path.compiled")
+        # labels: numbering by the loop lowerings vs the Lean `allocShared`; emitted units vs the Lean `assemble`
+        for sname_, kinds_, loops_, real_ in res.get("label_alloc", []):
+            if len(lab_lines) < 3000:
+                lab_lines.append("alloc " + " ".join(map(str, kinds_)) + " | " + " ".join(map(str, loops_)))
+                lab_expect.append(("alloc", {"leg": "B", "program": p["text"], "stage": sname_, "pin_seed": pin_seed}, real_))
+        for sname_, (asm_, prog_) in res.get("asm_by_stage", {}).items():
+            if len(lab_lines) < 3000 and any(mm == "label" for mm, _ in prog_[1:]) and (entries or sname_ in pp.FINALS):
+                unit_line(prog_, {"leg": "B", "stage": sname_, "asm": asm_})
+                if entries and sname_ == pp.FINAL:
+                    # the rejecting verdicts on units one edit away from an emitted one: a label renamed to an earlier
+                    # one (defined twice), a branch target's definition removed (undefined)
+                    locs = [k for k, (mm, a) in enumerate(prog_) if mm == "label" and a[0].startswith("scf_")]
+                    if len(locs) >= 2:
+                        k1, k2 = sorted(rng.sample(locs, 2))
+                        unit_line(prog_[:k2] + [("label", [prog_[k1][1][0]])] + prog_[k2 + 1:], {"leg": "B", "mutant": "renamed", "asm": asm_})
+                        unit_line(prog_[:k1] + prog_[k1 + 1:], {"leg": "B", "mutant": "dropped", "asm": asm_})
         # translation validation with the proved validator: every loop-free function that reached the assembler
         item = None
         if src is None:
@@ -747,9 +843,14 @@ def run_pipeline(ctx: core.Ctx) -> None:
         sem_lines.append("prog " + sexp)
         expect.append(None)
         for i, vec in enumerate(vecs):
-            sem_lines.append("run 200000 main " + " ".join(sem_arg(t, v) for t, v in zip(p["arg_types"], vec)))
-            expect.append((p, vec, regsets[i], [(s, o[i], txt) for s, o, txt in res["stages"]], pin_seed,
-                           (res["unsafe_loops"], res["interference"]), item))
+            pv = views[i]
+            ename = pv.get("entry", "main")
+            sem_lines.append(f"run 200000 {ename} " + " ".join(sem_arg(t, v) for t, v in zip(pv["arg_types"], vec)))
+            # attribution data of the entry point: its own source loops / the interference found in functions it reaches
+            reach = res["reach"].get(ename, {ename})
+            expect.append((pv, vec, regsets[i], [(s, o[i], txt) for s, o, txt in res["stages"]], pin_seed,
+                           (res["unsafe_by_entry"].get(ename, False),
+                            [x for x in res["interference"] if x.get("function", ename) in reach]), item))
             if item is not None:
                 item["ev"].append(len(tv_lines))
                 tv_lines.append(tv.ev_line(src[0], vec))
@@ -761,14 +862,19 @@ def run_pipeline(ctx: core.Ctx) -> None:
                 continue
             asm_f, prog = res["asm_by_stage"][fin]
             try:
-                ptxt = rv.lean_prog(prog)
-                entry = next(i for i, (mm, a) in enumerate(prog) if mm == "label" and a[0] == "main")
-            except (ValueError, KeyError, StopIteration):
+                ptxt = None if rv.unit_errors(prog) else rv.lean_prog(prog)
+            except (ValueError, KeyError):
                 ptxt = None
             if ptxt is not None:
-                for i in range(min(2, len(vecs))):
+                # the first two inputs; modules of several functions: the first input of every entry point
+                which = [entries.index(e) for e in dict.fromkeys(entries)][:3] if entries else list(range(min(2, len(vecs))))
+                for i in which:
                     ob = st_obs[i]
-                    obs = [f"a{k}" for k in range(len(p["ret_types"]))] + rv.CALLEE_SAVED
+                    ename = views[i].get("entry", "main")
+                    entry = next((k for k, (mm, a) in enumerate(prog) if mm == "label" and a[0] == ename), None)
+                    if entry is None or ob[0] not in ("ok", "trap"):
+                        continue
+                    obs = [f"a{k}" for k in range(len(views[i]["ret_types"]))] + rv.CALLEE_SAVED
                     lean_lines.append(f"run 200000 {entry} 0 | {rv.lean_regs(regsets[i])} | {ptxt} | " + " ".join(str(rv.regnum(r)) for r in obs))
                     if ob[0] == "ok":
                         want = "ok " + " ".join(str(x) for x in ob[1] + [ob[2][r] for r in rv.CALLEE_SAVED])
@@ -821,7 +927,7 @@ def run_pipeline(ctx: core.Ctx) -> None:
             item["bad"].append((bad[0], bad[1], vec))
         if any(sn_ == pp.FINAL for sn_, _, _ in stage_obs):
             ctx.disagreements_checked += 1
-            ctx.nt(("B", p["text"], tuple(vec)))
+            ctx.nt(("B", p["text"], p.get("entry", "main"), tuple(vec)))
         if bad is None:
             continue
         sname, sig, desc, obs = bad
@@ -836,6 +942,8 @@ def run_pipeline(ctx: core.Ctx) -> None:
             desc += "; interference analysis of the allocated module: " + json.dumps(interf[:4])
         case = {"leg": "B", "program": p["text"], "arg_types": p["arg_types"], "ret_types": p["ret_types"], "args": vec,
                 "entry_regs": regs, "pin_seed": pin_seed, "pin_p": p.get("pin_p", 0.4)}
+        if "funcs" in p:
+            case["entry"], case["funcs"] = p.get("entry", "main"), p["funcs"]
         if "fspec" in p:
             case["fspec"] = p["fspec"]
         elif reported < 6 and site != LOOP_SITE:
@@ -854,6 +962,16 @@ def run_pipeline(ctx: core.Ctx) -> None:
             ctx.mismatch(f"correspondence:C22/riscv-{kind}", case, want, got,
                          "registers saved / frame layout of the real PrologueEpilogueInsertion vs Lean usedCalleeSaved + layout "
                          "of the function as func.walk() sees it")
+    outs = ctx.model("riscv_labels", lab_lines) if lab_lines else []
+    for (kind, case, want), got in zip(lab_expect, outs):
+        ctx.count(f"lean.labels.{kind}" + ("." + want.split(" ")[0] if kind == "asm" else ""))
+        if got == "bad-op":
+            ctx.count(f"lean.labels.{kind}.unsupported")
+            continue
+        if got != want:
+            ctx.mismatch(f"correspondence:C22/riscv-labels-{kind}", case, want, got,
+                         "labels the real loop lowering defined per function vs Lean allocShared (one counter per module)" if kind == "alloc"
+                         else "symbol table of the emitted unit: Python assembler model vs Lean assemble")
     outs = ctx.model("riscv", lean_lines) if lean_lines else []
     for (kind, case, want), got in zip(lean_expect, outs):
         ctx.count(f"lean.{kind}")
@@ -1023,38 +1141,67 @@ def cmpi_instrs(p: dict[str, Any]) -> str:
     return "some " + ";".join(out)
 
 
-def shrink_program(ctx: core.Ctx, case: dict[str, Any], stage: str, sig: str) -> dict[str, Any]:
-    text = case["program"]
+def split_functions(text: str) -> tuple[list[str], list[list[str]], list[str]] | None:
+    """module text → (lines before the first function, one list of lines per function, closing lines); the
+    generated functions start with `func.func @` and end with `}` in column 0"""
     lines = text.split("\n")
-    try:
-        h = max(i for i, l in enumerate(lines) if l.startswith("func.func @main"))
-        r = max(i for i, l in enumerate(lines) if l.strip().startswith("func.return"))
-    except ValueError:
-        return case
-    body = lines[h + 1:r]
+    starts = [i for i, l in enumerate(lines) if l.startswith("func.func @")]
+    if not starts:
+        return None
+    end = max(i for i, l in enumerate(lines) if l == "}")   # the module's closing brace
+    chunks = [lines[a:b] for a, b in zip(starts, starts[1:] + [end])]
+    return lines[:starts[0]], chunks, lines[end:]
 
-    def verdict(t: str) -> bool:
-        p = {"text": t, "arg_types": case["arg_types"], "ret_types": case["ret_types"], "pin_p": case.get("pin_p", 0.4)}
+
+def shrink_program(ctx: core.Ctx, case: dict[str, Any], stage: str, sig: str) -> dict[str, Any]:
+    """smaller module with the same verdict (same stage, same signature, same entry point and input): whole
+    functions other than the entry point are dropped first, then statements of every remaining function"""
+    entry = case.get("entry", "main")
+    parts = split_functions(case["program"])
+    if parts is None:
+        return case
+    head, chunks, tail = parts
+
+    def name_of(chunk: list[str]) -> str:
+        return chunk[0].split("@", 1)[1].split("(", 1)[0]
+
+    def text_of(cs: list[list[str]]) -> str:
+        return "\n".join(head + [l for c in cs for l in c] + tail)
+
+    def verdict(cs: list[list[str]]) -> bool:
+        if entry not in [name_of(c) for c in cs]:
+            return False
+        t = text_of(cs)
+        p = {"text": t, "arg_types": case["arg_types"], "ret_types": case["ret_types"], "pin_p": case.get("pin_p", 0.4), "entry": entry}
         try:
             m = proggen.parse_module(t)
             sexp = miniir.serialize(m)
             res = compile_and_run(p, [case["args"]], [case["entry_regs"]], case["pin_seed"], None, ("C", "P", "Q", "E"))
         except Exception:  # noqa: BLE001
             return False
-        o = ctx.model("sem", ["prog " + sexp, "run 200000 main " + " ".join(miniir.arg_text(tt, v) for tt, v in zip(case["arg_types"], case["args"]))])[1]
+        o = ctx.model("sem", ["prog " + sexp, f"run 200000 {entry} " + " ".join(miniir.arg_text(tt, v) for tt, v in zip(case["arg_types"], case["args"]))])[1]
         want = pp.want_from_sem(o, case["ret_types"])
         if want is None:
             return False
         bad = judge(p, case["entry_regs"], want, [(s, ob[0], txt) for s, ob, txt in res["stages"]])
         return bad is not None and bad[0] == stage and bad[1] == sig
 
-    def still(b: list[str]) -> bool:
-        return verdict("\n".join(lines[:h + 1] + b + lines[r:]))
-
-    if not still(body):
+    if not verdict(chunks):
         return case
-    b2 = core.shrink_list(body, still, max_steps=80)
-    return dict(case, program="\n".join(lines[:h + 1] + b2 + lines[r:]))
+    if len(chunks) > 1:
+        chunks = core.shrink_list(chunks, verdict, max_steps=12)
+    for k in range(len(chunks)):
+        c = chunks[k]
+        if len(c) < 4:
+            continue
+
+        def still(b: list[str], k: int = k, c: list[str] = c) -> bool:
+            return verdict(chunks[:k] + [[c[0]] + b + c[-2:]] + chunks[k + 1:])
+        chunks[k] = [c[0]] + core.shrink_list(c[1:-2], still, max_steps=80 if len(chunks) == 1 else 30) + c[-2:]
+    out = dict(case, program=text_of(chunks))
+    if "funcs" in case:
+        out["funcs"] = [f for f in case["funcs"] if f["name"] in [name_of(c) for c in chunks]]
+    return out
 
 
 # ================================================================================================
@@ -1241,13 +1388,16 @@ def replay(ctx: core.Ctx, body: dict) -> int:
         print("property FAILS on this case: " + sig if sig else "property holds on this case")
         return 1 if sig else 0
     if leg == "B":
-        p = {"text": case["program"], "arg_types": case["arg_types"], "ret_types": case["ret_types"], "pin_p": case.get("pin_p", 0.4)}
+        entry = case.get("entry", "main")
+        p = {"text": case["program"], "arg_types": case["arg_types"], "ret_types": case["ret_types"], "pin_p": case.get("pin_p", 0.4),
+             "entry": entry}
         if "fspec" in case:
             p["fspec"] = case["fspec"]
         print(p["text"])
         m = proggen.parse_module(p["text"])
         res = compile_and_run(p, [case["args"]], [case["entry_regs"]], case.get("pin_seed"), ctx, ("C", "P", "Q", "E"))
-        o = ctx.model("sem", ["prog " + miniir.serialize(m), "run 200000 main " + " ".join(sem_arg(t, v) for t, v in zip(case["arg_types"], case["args"]))])[1]
+        o = ctx.model("sem", ["prog " + miniir.serialize(m), f"run 200000 {entry} " + " ".join(sem_arg(t, v) for t, v in zip(case["arg_types"], case["args"]))])[1]
+        print(f"entry point: @{entry}  arguments: {case['args']}")
         print("source semantics:", o)
         if res["nocompile"]:
             print("does not compile:", res["nocompile"])
@@ -1264,6 +1414,21 @@ def replay(ctx: core.Ctx, body: dict) -> int:
         bad = judge(p, case["entry_regs"], want, [(s, ob[0], txt) for s, ob, txt in res["stages"]]) if want is not None else None
         if bad:
             print(next(t for s, _, t in res["stages"] if s == bad[0]))
+            if bad[1] == SIG_UNIT:
+                # the unit does not assemble; for illustration: what the entry point computes if a tool tolerated the
+                # second definition (first / last definition wins)
+                for s, (asm, prog) in res.get("asm_by_stage", {}).items():
+                    if rv.duplicates(rv.label_defs(prog)):
+                        print(f"--- emitted unit at {s}:\n{asm}")
+                        for pol in ("first", "last"):
+                            mach = rv.Machine(prog, case["entry_regs"], dup_policy=pol)
+                            try:
+                                mach.call(entry)
+                                got: Any = pp.canon_rets([mach.get(r) for r in pp.abi_regs(p["ret_types"])], p["ret_types"])
+                            except rv.Trap as e:
+                                got = f"trap: {e}"
+                            print(f"    if the {pol} definition of a label won: @{entry} returns {got}; the source returns {want}")
+                        break
             print(f"property FAILS on this case at {bad[0]}: {bad[1]}: {bad[3]}")
             return 1
         print("property holds on this case")
